@@ -357,6 +357,8 @@ pub fn run() {
             10 => one::<(IpcReceiver<u32>, IpcSharedMemory)>(id, bytes, &atts, d),
             11 => one::<(Vec<OpaqueIpcSender>, IpcBytesSender, IpcBytesReceiver)>(id, bytes, &atts, d),
             12 => one::<N>(id, bytes, &atts, d),
+            13 => one::<(IpcReceiver<u32>, IpcReceiver<u32>)>(id, bytes, &atts, d),
+            14 => one::<(IpcBytesReceiver, OpaqueIpcSender, Option<IpcReceiver<u32>>)>(id, bytes, &atts, d),
             _ => json!({"error":"ty"}),
         };
         mark(&format!("enddec {}", id));
